@@ -135,12 +135,31 @@ def run(chk: Check):
             bounds = [[0.0] * d, [p * rng.randint(1, 2) for p in prec]]
             sp = SearchSpace(bounds, prec, False)
             chk.count("space:tiny")
-        if (not edge) and (si % 6 == 0 or si % 12 == 5):
+        if (not edge) and (si % 6 == 0 or si % 6 == 5):
             # parameters whose grids look alike: same number of points, element-wise within the usual "close enough" tolerances
             # (rtol 1e-5 / atol 1e-8), but different values: tiny scales, or nearly coinciding offsets
             from black_it.search_space import SearchSpace
             n = rng.randint(4, 20)
-            if rng.random() < 0.5:
+            if si % 6 == 5:
+                # the same bounds and precisions that differ in their last bits (0.1 and 0.3/3, 0.2 and 0.6/3, ...): grids of the same length with the same first and
+                # last point whose interior points differ by an ulp here and there - each coordinate still belongs to ITS parameter's grid
+                from black_it.search_space import SearchSpace
+                combos = [(h, q) for h in (10.0, 1.0, 5.0, 2.0) for q in (0.1, 0.2, 0.05, 0.01, 0.02, 0.3, 0.7)]
+                rng.shuffle(combos)
+                twins, others = [], []
+                for hi_c, pa in combos:
+                    cands = [pa, float(np.nextafter(pa, 0.0)), (3.0 * pa) / 3.0, (pa * 7.0) / 7.0, float(np.nextafter(pa, 1.0)), (pa / 3.0) * 3.0]
+                    grids_c = {c: SearchSpace([[0.0], [hi_c]], [c], False).param_grid[0] for c in set(cands)}
+                    g0 = grids_c[pa]
+                    twins = [c for c in cands[1:] if c != pa and len(grids_c[c]) == len(g0) and grids_c[c][0] == g0[0] and grids_c[c][-1] == g0[-1] and np.any(grids_c[c] != g0)]
+                    others = [c for c in cands[1:] if c != pa and c not in twins]
+                    if twins:
+                        break
+                prec = [pa] + (twins[: rng.randint(1, 2)] if twins else others[:1])
+                bounds = [[0.0] * len(prec), [hi_c] * len(prec)]
+                chk.count("space:look-alike_grids:same_length_and_end_points_other_interior" if twins else "space:look-alike_grids:ulp_apart_other_ends")
+                chk.count("space:look-alike_grids:precisions_an_ulp_apart")
+            elif rng.random() < 0.5:
                 u = 10.0 ** rng.randint(-12, -10)
                 steps = rng.sample([1.0, 2.0, 3.0, 5.0, 7.0], rng.randint(2, 3))
                 prec = [u * k for k in steps]
@@ -151,6 +170,7 @@ def run(chk: Check):
                 prec = [p0] * len(shifts)
                 bounds = [[base + sft for sft in shifts], [base + sft + n * p0 for sft in shifts]]
             sp = SearchSpace(bounds, prec, False)
+            tiny = False
             chk.count("space:look-alike_grids")
         int_hist = (not edge) and si % 4 == 2
         if int_hist:
